@@ -178,6 +178,22 @@ func runC11(c *core.Case) {
 		ids = append(ids, sb)
 		c.Tag("high-bit-sibling")
 	}
+	if square && r.P(0.08) {
+		// single-zoom list: a voxel with f = 0 followed (or preceded) by a finer voxel just below ground inside its footprint
+		P, ch := truncAliasPair(r)
+		P.H = clampI(P.H, 1, 28)
+		P.X, P.Y = P.X&(pow2(P.H)-1), P.Y&(pow2(P.H)-1)
+		P.V = P.H
+		d := r.Range(1, 3)
+		ch = ref.ID{H: P.H + d, X: P.X<<uint(d) + r.I64n(pow2(d)), Y: P.Y<<uint(d) + r.I64n(pow2(d)), V: P.H + d, F: -r.Range(1, pow2(d)-1)}
+		if r.Bool() {
+			ids = []ref.ID{P, ch}
+		} else {
+			ids = []ref.ID{ch, P}
+		}
+		h, v = P.H, P.H
+		c.Tag("f=0-then-finer-f<0-same-footprint")
+	}
 	radix := false
 	if r.P(0.03) && !square {
 		// vertical (index, zoom) pairs that a key packed as index*35+zoom (radix one too small for zooms 0..35) confuses:
